@@ -290,6 +290,7 @@ def explore(udef: UnitDef, mode, dimvals, repo, max_paths=64):
         ch = Chooser(prefix)
         ctx = Ctx(ch, unit=udef.name)
         ctx.tags = udef.props
+        ctx.exact_norm = mode == "conc"
         u = U(udef, ctx, mode, dimvals, repo)
         ended = None
         err = None
